@@ -742,6 +742,21 @@ func runC18(cfg config) {
 		}
 		doResource("Patient", 2, 10)
 	}
+	{ // a multi-word code spelt with `_` where the value set has `-` is not a code of the value set: refused, nothing changes
+		lp := longPatient()
+		lp.Link = []*ppb.Patient_Link{{Other: &dtpb.Reference{Display: &dtpb.String{Value: "other"}}, Type: &ppb.Patient_Link_TypeCode{Value: 3}},
+			{Other: &dtpb.Reference{Display: &dtpb.String{Value: "second"}}}}
+		prepared = lp
+		forced = []forcedOp{
+			{kind: "replace", expr: "Patient.link[0].type", value: &dtpb.Code{Value: "replaced_by"}},
+			{kind: "add", expr: "Patient.link[1]", field: "type", value: &dtpb.Code{Value: "replaced_by"}},
+			{kind: "add", expr: "Patient.link[1]", field: "type", value: &dtpb.String{Value: "REPLACED-BY"}},
+			{kind: "add", expr: "Patient.link[1]", field: "type", value: &dtpb.Code{Value: "replaced-by"}},
+			{kind: "replace", expr: "Patient.link[0].type", value: &dtpb.Code{Value: "replaced-_by"}},
+			{kind: "replace", expr: "Patient.link[0].type", value: &dtpb.Code{Value: "replaced-by"}},
+		}
+		doResource("Patient", 2, 7)
+	}
 	{ // the same code as in the history above, in another resource: nothing of the first may come along
 		prepared = longPatient()
 		forced = []forcedOp{{kind: "add", expr: "Patient.telecom[4]", field: "system", value: &dtpb.Code{Value: "phone"}}, {kind: "add", expr: "Patient", field: "gender", value: &dtpb.Code{Value: "female"}},
